@@ -1,6 +1,7 @@
 package main
 
 import (
+	"go/types"
 	"fmt"
 	"go/token"
 	"strings"
@@ -360,6 +361,53 @@ func c17(r *Run) {
 			wit := ss.Find([]Start{After(g)}, nil, true)
 			r.Visited += ss.Visited
 			r.obW("C17.R3:batch-walk-is-complete", "deal() leaves its loop over the batch only at the end of the batch or after it closed the connection on an Append error: a getter that reports nothing to send (isNil) does not drop the getters queued behind it", deal, g, wit, "the only exits after a getter call are the end of the range and the Close() path")
+		}
+	}
+	// a wrapping 32-bit atomic counter is reduced to an index only as an unsigned value: a signed remainder turns negative
+	// after 2^31 Adds and the next Add panics on the shard tables (its getter is never invoked)
+	{
+		n := 0
+		for _, f := range w.Funcs {
+			if !strings.HasPrefix(w.FnName(f), "(*mux.ShardQueue).") {
+				continue
+			}
+			for _, ins := range allIns(f) {
+				b, ok := ins.(*ssa.BinOp)
+				if !ok || b.Op != token.REM {
+					continue
+				}
+				x := b.X
+				for {
+					if cv, ok := x.(*ssa.Convert); ok {
+						x = cv.X
+						continue
+					}
+					if ct, ok := x.(*ssa.ChangeType); ok {
+						x = ct.X
+						continue
+					}
+					break
+				}
+				c, ok := x.(*ssa.Call)
+				if !ok {
+					continue
+				}
+				a := asAtomic(c)
+				if a == nil || a.Op != "Add" {
+					continue
+				}
+				callee := c.Call.StaticCallee()
+				if callee == nil || !(strings.HasSuffix(callee.Name(), "Int32") || strings.HasSuffix(callee.Name(), "Uint32")) {
+					continue
+				}
+				n++
+				bt, _ := b.X.Type().Underlying().(*types.Basic)
+				unsigned := bt != nil && bt.Info()&types.IsUnsigned != 0
+				r.ob("C17.R4:shard-index-never-negative:"+f.Name(), "the index derived from a wrapping 32-bit atomic counter is the remainder of its unsigned value: the signed remainder is negative after 2^31 Adds on one queue and Add would panic indexing the shard locks", f, ins, unsigned, "remainder taken on "+b.X.Type().String(), true)
+			}
+		}
+		if n == 0 {
+			r.absentf(" C17: no shard index derived from the Add counter")
 		}
 	}
 	// getters are invoked only by deal, once per element of its argument
